@@ -531,4 +531,57 @@ theorem chunkwise_lossy_decoder_cex :
 
 example : splitBy [1, 0] [1, 2, 3, 4, 5] = [[1, 2], [3], [4, 5]] := by decide
 
+/-! ## `$(cmd)` hands back cmd's status -/
+
+private theorem performSubsts_spec (codes : List Nat) : ∀ r : StatusReg,
+    (performSubsts r codes).changes = r.changes + codes.length ∧
+    (performSubsts r codes).status = (codes.getLast?).getD r.status := by
+  induction codes with
+  | nil => intro r; simp [performSubsts]
+  | cons c cs ih =>
+    intro r
+    have := ih (r.set c)
+    simp only [performSubsts, List.foldl_cons] at this ⊢
+    refine ⟨by rw [this.1]; simp [StatusReg.set]; omega, ?_⟩
+    rw [this.2]
+    cases cs with
+    | nil => simp [StatusReg.set]
+    | cons d ds =>
+      cases hl : (d :: ds).getLast? with
+      | none => simp at hl
+      | some l => simp [List.getLast?_cons_cons, hl]
+
+/-- **The status of an assignment-only command is that of the last substitution performed, else 0**
+— whatever `$?` was before (in particular when it already equals the substitution's status), for any
+number of substitutions in any number of assignment words. -/
+theorem assignment_status_is_last_substitution (prior : StatusReg) (codes : List Nat) :
+    (statusAfter prior codes .assignOnly).status = (codes.getLast?).getD 0 := by
+  have h := performSubsts_spec codes prior
+  simp only [statusAfter]
+  cases codes with
+  | nil => simp [performSubsts, StatusReg.set]
+  | cons c cs =>
+    have hne : (performSubsts prior (c :: cs)).changes ≠ prior.changes := by rw [h.1]; simp
+    simp only [hne, ↓reduceIte, h.2]
+    cases hl : (c :: cs).getLast? with
+    | none => simp at hl
+    | some l => simp
+
+/-- With a command word (`declare`, `local`, `export`, `true`, …) the status is the command's own,
+whatever the substitutions in its words returned. -/
+theorem command_status_ignores_substitutions (prior : StatusReg) (codes : List Nat) (st : Nat) :
+    (statusAfter prior codes (.command st)).status = st := by
+  simp [statusAfter, StatusReg.set]
+
+/-- A status register that does not count re-storing the same value breaks the law exactly when the
+substitution's status equals the previous `$?`:  `false; x=$(false); echo $?`. -/
+theorem assignment_status_needs_every_store_counted :
+    (statusAfterAssignVariant { status := 1, changes := 7 } [1]).status = 0 ∧
+    (statusAfter { status := 1, changes := 7 } [1] .assignOnly).status = 1 ∧
+    (statusAfterAssignVariant { status := 3, changes := 7 } [1]).status = 1 := by decide
+
+example : (statusAfter { status := 3, changes := 0 } [2, 3] .assignOnly).status = 3 ∧
+    (statusAfter { status := 3, changes := 0 } [] .assignOnly).status = 0 ∧
+    (statusAfter { status := 3, changes := 0 } [3] (.command 0)).status = 0 := by decide
+
 end BrushVerif.C11
